@@ -23,3 +23,26 @@ Proof.
   destruct (Qltb (p_util p) (r_low c)); [cbn; repeat split; reflexivity|].
   destruct (Qltb (r_high c) (p_alloc p)); cbn; repeat split; try reflexivity. ring.
 Qed.
+
+(* ---- the selection kernels of Stepwise (RangeSelector.get_rule) and DemandSwitch (regulate) ---- *)
+From Coq Require Import List.
+From Cobald Require Import kit.SelectIR.
+Import ListNotations.
+
+Lemma get_rule_p_ref : forall lk s, get_rule_p ref_get_rule_chain lk s = get_rule lk s.
+Proof.
+  induction lk as [|[[lo hi] r] rest IH]; intros s; [reflexivity|].
+  cbn [get_rule_p get_rule]. rewrite IH.
+  replace (chain_ev (mkSenv (Some lo) hi (Some s)) ref_get_rule_chain) with (in_range (lo, hi, r) s); [reflexivity|].
+  unfold in_range, chain_ev, ref_get_rule_chain. cbn.
+  destruct hi as [h|]; cbn; rewrite ?andb_true_r; reflexivity.
+Qed.
+
+Lemma choose_p_ref : forall slaves default d, choose_p ref_choose_chain default slaves d = choose default slaves d.
+Proof.
+  unfold choose_p, choose. induction slaves as [|e r IH]; intros default d; [reflexivity|].
+  cbn [fold_left].
+  replace (chain_ev (mkSenv (Some (fst e)) None (Some d)) ref_choose_chain) with (Qle_bool (fst e) d).
+  - apply IH.
+  - unfold chain_ev, ref_choose_chain. cbn. rewrite andb_true_r. reflexivity.
+Qed.
